@@ -1,29 +1,57 @@
-"""Batched trace validation: write traces as one JSON array, let TLC judge every trace with a Trace_*.tla module,
-collect one verdict per trace from the PrintT lines  <<"VERDICT", tid, ok, why, at>>."""
-import json, os, re
+"""Batched trace validation: write traces as JSON arrays, let TLC judge every trace with a Trace_*.tla module,
+collect one verdict per trace from the PrintT lines  <<"VERDICT", tid, ok, why, at>>.
+
+A Trace_* module judges a trace in the (single) initial state that carries its id, and TLC enumerates initial states on one
+thread; so a batch is split into up to `par` parts that are judged by as many TLC processes side by side (one worker each)."""
+import json, os, re, threading
+from concurrent.futures import ThreadPoolExecutor
 from . import tlc
 from .common import BUILD, ensure_dir
 
 _v = re.compile(r'<<"VERDICT", (\d+), (TRUE|FALSE), "([^"]*)", (-?\d+)>>')
+PAR = int(os.environ.get('VERIF_TRACE_PAR', '16'))
+_slots = threading.BoundedSemaphore(PAR)          # callers may judge several batches from their own threads
 
 
-def judge(module, traces, tag, batch=20000, timeout=1800):
+def _weight(t):
+    try:
+        return 1 + sum(len(x) for x in t.values() if isinstance(x, (list, str)))
+    except AttributeError:
+        return 1
+
+
+def judge(module, traces, tag, batch=20000, timeout=1800, par=None):
     """returns (verdicts, states): verdicts[i] = (ok, why, at) for traces[i]"""
+    par = par or PAR
     verdicts = [None] * len(traces)
-    states = 0
     d = ensure_dir(os.path.join(BUILD, 'traces'))
-    for b0 in range(0, len(traces), batch):
-        part = traces[b0:b0 + batch]
-        path = os.path.join(d, '%s_%d.json' % (tag, b0))
-        json.dump(part, open(path, 'w'))
-        r = tlc.run(module, tag='%s_%d' % (tag, b0), env={'TRACE_FILE': path}, coverage=False, timeout=timeout)
+    # parts of roughly equal weight (longest first, greedy), at most `batch` traces each
+    nparts = max(1, min(par, len(traces) // 40 + 1), -(-len(traces) // batch))
+    order = sorted(range(len(traces)), key=lambda i: -_weight(traces[i]))
+    parts, load = [[] for _ in range(nparts)], [0] * nparts
+    for i in order:
+        k = load.index(min(load))
+        parts[k].append(i)
+        load[k] += _weight(traces[i])
+    parts = [sorted(p) for p in parts if p]
+
+    def one(k):
+        idx = parts[k]
+        path = os.path.join(d, '%s_%d.json' % (tag, k))
+        json.dump([traces[i] for i in idx], open(path, 'w'))
+        with _slots:
+            r = tlc.run(module, tag='%s_%d' % (tag, k), env={'TRACE_FILE': path}, coverage=False, timeout=timeout,
+                        workers=1 if len(parts) > 1 else 16, heap='3g' if len(parts) > 1 else '8g')
         if not r.ok:
             print(r.out[-3000:])
             raise SystemExit('machinery failure: trace validation run of %s failed' % module)
-        states += r.distinct
         for m in _v.finditer(r.out):
-            verdicts[b0 + int(m.group(1)) - 1] = (m.group(2) == 'TRUE', m.group(3), int(m.group(4)))
+            verdicts[idx[int(m.group(1)) - 1]] = (m.group(2) == 'TRUE', m.group(3), int(m.group(4)))
         os.remove(path)
+        return r.distinct
+
+    with ThreadPoolExecutor(max_workers=min(par, len(parts))) as ex:
+        states = sum(ex.map(one, range(len(parts))))
     missing = [i for i, x in enumerate(verdicts) if x is None]
     if missing:
         raise SystemExit('machinery failure: no verdict for %d traces (first %s)' % (len(missing), missing[:3]))
